@@ -86,6 +86,7 @@ type c07Fault struct {
 	vetoStore string
 	vetoKind  boltz.EntityEventType
 	writeNo   int
+	pre       string // precommit: the registered pre-commit actions in order, F = fails, S = succeeds
 }
 
 func (f c07Fault) String() string {
@@ -96,6 +97,8 @@ func (f c07Fault) String() string {
 		return fmt.Sprintf("veto(%s,%s)", f.vetoStore, map[boltz.EntityEventType]string{boltz.EntityCreated: "create", boltz.EntityUpdated: "update", boltz.EntityDeleted: "delete"}[f.vetoKind])
 	case "storage":
 		return fmt.Sprintf("storage-write-%d-fails", f.writeNo)
+	case "precommit":
+		return "precommit[" + f.pre + "]"
 	}
 	return f.kind
 }
@@ -315,7 +318,8 @@ func c07State(rep *report.Report, w *c07World, ops []explore.Op, bodies [][]int,
 			continue
 		}
 		var faults []c07Fault
-		faults = append(faults, c07Fault{kind: "none"}, c07Fault{kind: "precommit"})
+		// pre-commit actions: a failing one alone, before, after and between succeeding ones
+		faults = append(faults, c07Fault{kind: "none"}, c07Fault{kind: "precommit", pre: "F"}, c07Fault{kind: "precommit", pre: "FS"}, c07Fault{kind: "precommit", pre: "SF"}, c07Fault{kind: "precommit", pre: "SFS"})
 		for j := 0; j <= len(body); j++ {
 			faults = append(faults, c07Fault{kind: "caller", callerAt: j})
 		}
@@ -345,7 +349,7 @@ func c07State(rep *report.Report, w *c07World, ops []explore.Op, bodies [][]int,
 		}
 		// Batch waits 10 ms per call: one body in 40, without fault, with caller error, with veto
 		if bi%40 == 0 {
-			for _, f := range []c07Fault{{kind: "none"}, {kind: "caller", callerAt: len(body)}, {kind: "precommit"}} {
+			for _, f := range []c07Fault{{kind: "none"}, {kind: "caller", callerAt: len(body)}, {kind: "precommit", pre: "F"}, {kind: "precommit", pre: "FS"}} {
 				c07Run(rep, w, h, ops, body, st, m, reject, f, "Batch", pre, preHash)
 			}
 		}
@@ -375,7 +379,13 @@ func c07Run(rep *report.Report, w *c07World, h *c07Db, ops []explore.Op, body []
 		defer vfault.Detach(ctx.Tx())
 		ctx.AddCommitAction(func() { atomic.AddInt64(&w.commitActs, 1) })
 		if f.kind == "precommit" {
-			ctx.AddPreCommitAction(func(boltz.MutateContext) error { return errBoom })
+			for _, a := range f.pre {
+				if a == 'F' {
+					ctx.AddPreCommitAction(func(boltz.MutateContext) error { return errBoom })
+				} else {
+					ctx.AddPreCommitAction(func(boltz.MutateContext) error { return nil })
+				}
+			}
 		}
 		for i, o := range body {
 			if f.kind == "caller" && f.callerAt == i {
